@@ -104,6 +104,10 @@ class Scheduler(object):
     self.preemptions = 0
     self.line_gap = None
     self.line_budget = self.k.get("line_budget", 0)
+    # "hot line": always pre-empt when a thread is about to execute this
+    # source line (a chosen race window is held open), a few times per run
+    self.hot_line = self.k.get("hot_line")
+    self.hot_budget = self.k.get("hot_budget", 0) if self.hot_line else 0
     self.pct_changes = []
     self.pct_low = -1
     self.inert = False
@@ -460,7 +464,13 @@ class Scheduler(object):
         cur = self.current
         if cur is not None:
           cur.last_line = frame.f_lineno
-        self.line_event()
+        if self.hot_budget > 0 and frame.f_lineno == self.hot_line and \
+           not self.aborting:
+          self.hot_budget -= 1
+          self.count("hot-line-preemptions")
+          self.yield_point("line", sync=False)
+        else:
+          self.line_event()
     return self._local_trace
 
   # ------------------------------------------------------------------- run
